@@ -425,8 +425,10 @@ spif_socket_accept(spif_socket_t self)
 
     ASSERT_RVAL(!SPIF_SOCKET_ISNULL(self), (spif_socket_t) NULL);
 
-    addr = SPIF_ALLOC(sockaddr);
-    len = SPIF_SIZEOF_TYPE(sockaddr);
+    /* The peer address may be an IP or a UNIX-domain address; keep it NUL-terminated. */
+    len = MAX(SPIF_SIZEOF_TYPE(ipsockaddr), SPIF_SIZEOF_TYPE(unixsockaddr));
+    addr = (spif_sockaddr_t) MALLOC(len + 1);
+    memset(addr, 0, len + 1);
     do {
         newfd = accept(self->fd, addr, &len);
     } while ((newfd < 0) && ((errno == EAGAIN) || (errno == EWOULDBLOCK)));
